@@ -132,18 +132,36 @@ func hopByHopHeaderRemove(outreq, req *bfe_http.Request) {
 		outreq.Header.Del(h)
 	}
 
-	// Remove the headers nominated by the "Connection" header
-	// (RFC 7230, section 6.1). req.Header is never modified here.
-	for _, f := range req.Header["Connection"] {
-		for _, h := range strings.Split(f, ",") {
-			if h = strings.TrimSpace(h); h != "" {
-				remove(bfe_http.CanonicalHeaderKey(h))
-			}
-		}
-	}
-
+	// The headers nominated by the "Connection" header have already been
+	// removed by connectionNominatedRemove when the request arrived.
 	for _, h := range bfe_basic.HopHeaders {
 		remove(h)
+	}
+}
+
+// connectionNominatedRemove removes from the client request the header fields
+// nominated by its "Connection" header (RFC 7230, section 6.1).
+//
+// It must run before any module adds headers of its own (X-Real-Ip, X-Real-Port,
+// X-Forwarded-For, ...). Done later, a client could make bfe strip them again by
+// sending "Connection: X-Real-Ip, X-Forwarded-For". The fixed hop-by-hop fields
+// (bfe_basic.HopHeaders) are still needed while the request is processed; they
+// are removed by hopByHopHeaderRemove.
+func connectionNominatedRemove(req *bfe_http.Request) {
+	for _, f := range req.Header["Connection"] {
+	nominated:
+		for _, h := range strings.Split(f, ",") {
+			h = bfe_http.CanonicalHeaderKey(strings.TrimSpace(h))
+			if h == "" {
+				continue
+			}
+			for _, hop := range bfe_basic.HopHeaders {
+				if h == hop {
+					continue nominated
+				}
+			}
+			req.Header.Del(h)
+		}
 	}
 }
 
@@ -603,6 +621,10 @@ func (p *ReverseProxy) ServeHTTP(rw bfe_http.ResponseWriter, basicReq *bfe_basic
 
 	// set clientip of original user for request
 	setClientAddr(basicReq)
+
+	// drop the fields nominated by the client's Connection header before any
+	// module adds headers of its own
+	connectionNominatedRemove(req)
 
 	// Callback for HandleBeforeLocation
 	hl = srv.CallBacks.GetHandlerList(bfe_module.HandleBeforeLocation)
